@@ -2900,6 +2900,14 @@ def is_none(array, axis=0, highlevel=True, behavior=None):
                 )
             else:
                 return posaxis
+        elif posaxis >= depth and (
+            isinstance(layout, ak._util.unknowntypes)
+            or (isinstance(layout, ak.layout.NumpyArray) and layout.ndim == 1)
+        ):
+            raise ValueError(
+                "axis={0} exceeds the depth of this array".format(axis)
+                + ak._util.exception_suffix(__file__)
+            )
         else:
             return posaxis
 
